@@ -39,7 +39,9 @@ RULE = ("structures: 1-8 atoms on distinct sites of an 8x8x8 fractional grid (+ 
         "output only), every term kind, extra columns on any subset of {atom, bond, angle, dihedral}, duplicate elements "
         "across types, dyadic and generic charges, fractional and Cartesian output; hand-written CIF texts with s.u. "
         "parentheses, Cartesian tags, both tag families, P1 / non-P1 / missing H-M items; random strings for the s.u. "
-        "stripper; hand-written numbers also in exponent notation (e/E, signs, with s.u.); large structures with >= 1001 atoms "
+        "stripper; HISTORIES: one live object saved 2-5 times with its cell changed between saves (in-place row assignment, "
+        "scalar scaling, element assignment, row increment, or replacement; positions kept fractional or Cartesian), every "
+        "save judged by the same round-trip oracle against the object's current cell/positions; hand-written numbers also in exponent notation (e/E, signs, with s.u.); large structures with >= 1001 atoms "
         "of a two-letter element (thorough: 10050 of a one-letter element) and terms on the highest-numbered atoms; plus the corpus replays and small streams of the six known-finding classes (impropers with extra dihedral "
         "columns, extra improper columns, inexact cells re-written, boundary atoms in inexact cells, Cartesian output of a "
         "re-oriented cell, upper-case extra data names). OUT OF DOMAIN, not generated: element names ending in a digit (no "
@@ -377,12 +379,13 @@ def is_standard_orientation(cellj):
     return c[0][1] == 0 and c[0][2] == 0 and c[1][2] == 0 and c[0][0] > 0 and c[1][1] > 0 and c[2][2] > 0
 
 
-def oracle_roundtrip(aj, fract, with_ase=True):
+def oracle_roundtrip(aj, fract, with_ase=True, obj=None):
     """The property on one structure and one output mode. Returns (list of (what, tag-or-None), info dict).
-    Everything is recomputed from the canonical dump `aj` and from what the REAL code wrote / returned."""
+    Everything is recomputed from the canonical dump `aj` and from what the REAL code wrote / returned.
+    `obj`: an existing mofun.Atoms whose current state is `aj` (operation histories); default: built from `aj`."""
     bad = []
     info = {}
-    a, e = attempt(lambda: core.atoms_from_json(aj))
+    a, e = (obj, None) if obj is not None else attempt(lambda: core.atoms_from_json(aj))
     if e is not None:
         return [("constructing the structure raised %s: %s" % (type(e).__name__, e), None)], info
     w1, e = attempt(lambda: write(a, fract))
@@ -1019,6 +1022,124 @@ def nontrivial(inp):
 
 # ------------------------------------------------------------------ run
 
+def judge_state(ctx, inp, aj, fract, ops, pending, oracle_only, obj=None, where=""):
+    """one save of one structure state: oracle on the real code, then the two ties.  `obj`: the live object (histories)"""
+    ctx.count("out:" + ("fract" if fract else "cartn"))
+    for k in ["atom", "bond", "angle", "dihedral", "improper"]:
+        if aj["xlabels"].get(k):
+            ctx.count("extra:" + k)
+    for k in KINDS:
+        if aj["terms"][k]:
+            ctx.count("terms:" + k)
+    big = len(aj["atoms"]) > LARGE_TIE_LIMIT
+    bad, info = oracle_roundtrip(aj, fract, with_ase=not big, obj=obj)
+    if "block" in info:
+        bad += oracle_cellpar_strings(aj, info["block"])
+    if "in_cell" in info:
+        ctx.count("rewrite:" + ("W2==W1" if info["in_cell"] else "W3==W2"))
+    for what, tag in bad:
+        ctx.fail(where + what, inp, observed=(info.get("w1") or "")[:1500], required="C15 round trip", tags=[tag] if tag else [])
+    if oracle_only or big:
+        return
+    # tie 1: the block the code wrote against the model's saveCif
+    a, e = (obj, None) if obj is not None else attempt(lambda: core.atoms_from_json(aj))
+    if e is not None:
+        return
+    w1, e = attempt(lambda: write(a, fract))
+    if e is not None:
+        ops.append({"op": "cif_save", "a": aj, "fract": fract, "env": env_for(aj, None)})
+        pending.append(("cif_save", {"err": save_err(e)}, None))
+        return
+    block, e = attempt(lambda: read_block(w1))
+    if e is not None:
+        return
+    ops.append({"op": "cif_save", "a": aj, "fract": fract, "env": env_for(aj, block)})
+    pending.append(("cif_save", {"ok": canon_block(block)}, exact_arith(aj) or not (fract and aj["cell"] is not None)))
+    # tie 2: what the code read from that file against the model's loadCif on that block
+    b, e = attempt(lambda: read(w1))
+    impl = {"ok": core.canon_atoms(b)} if e is None else {"err": load_err(e)}
+    ops.append({"op": "cif_load", "block": block, "cell": impl["ok"]["cell"] if e is None else None})
+    pending.append(("cif_load", impl, None))
+
+
+# ------------------------------------------------------------------ histories: several saves of ONE object
+
+def gen_history(rng):
+    """one structure object that is saved, has its cell changed (IN PLACE: row assignment, scalar scaling, element
+    assignment, row increment; or replaced by a new array), is saved again, ... Every cell stays lower-triangular
+    with a positive diagonal (standard orientation), so that Cartesian output is in the property's domain too."""
+    aj, ck = gen_structure(rng, cellkind=rng.choice(["ortho", "tri+", "tri-", "tri", "ortho2"]), n=rng.randint(1, 6),
+                           placement=rng.choice(["inside", "inside", "mixed", "outside"]))
+    d8 = lambda lo, hi: Fraction(rng.randint(int(lo * 8), int(hi * 8)), 8)
+    steps = []
+    for _ in range(rng.randint(1, 4)):
+        kind = rng.choice(["row", "row", "scale", "scale", "elem", "elem", "rowadd", "replace"])
+        st = {"kind": kind, "keep": rng.choice(["frac", "frac", "cart"])}
+        if kind == "row":
+            i = rng.randrange(3)
+            st["i"] = i
+            st["row"] = [core.q(v) for v in ([d8(6, 16), 0, 0] if i == 0 else [d8(-3, 3), d8(6, 16), 0] if i == 1
+                                             else [d8(-3, 3), d8(-3, 3), d8(6, 18)])]
+        elif kind == "scale":
+            st["k"] = core.q(rng.choice([Fraction(3, 2), Fraction(5, 4), Fraction(3, 4), Fraction(2), Fraction(9, 8)]))
+        elif kind == "elem":
+            i, j = rng.choice([(0, 0), (1, 1), (2, 2), (1, 0), (2, 0), (2, 1)])
+            st["i"], st["j"] = i, j
+            st["v"] = core.q(d8(6, 18) if i == j else d8(-3, 3))
+        elif kind == "rowadd":
+            i = rng.randrange(3)
+            st["i"] = i
+            st["row"] = [core.q(v) for v in ([d8(1, 4), 0, 0] if i == 0 else [d8(-1, 1), d8(1, 4), 0] if i == 1
+                                             else [d8(-1, 1), d8(-1, 1), d8(1, 4)])]
+        else:
+            st["cell"] = [[core.q(v) for v in row] for row in gen_cell(rng, rng.choice(["ortho", "tri+", "tri-", "tri"]))]
+        steps.append(st)
+    return {"op": "history", "a": aj, "steps": steps, "fract": [rng.random() < 0.75 for _ in range(len(steps) + 1)],
+            "stream": "history", "cellkind": ck}
+
+
+def apply_step(obj, st):
+    """the modification a user script would make on the live object (numpy, in place unless kind == replace)"""
+    import numpy as np
+    frac = np.linalg.solve(np.array(obj.cell, dtype=float).T, np.array(obj.positions, dtype=float).T).T
+    k = st["kind"]
+    if k == "row":
+        obj.cell[st["i"]] = [fl(v) for v in st["row"]]
+    elif k == "scale":
+        obj.cell *= fl(st["k"])
+    elif k == "elem":
+        obj.cell[st["i"], st["j"]] = fl(st["v"])
+    elif k == "rowadd":
+        obj.cell[st["i"]] += np.array([fl(v) for v in st["row"]])
+    else:
+        obj.cell = np.array([[fl(v) for v in row] for row in st["cell"]])
+    if st.get("keep") == "frac":
+        obj.positions = frac.dot(obj.cell)          # the atoms keep their fractional coordinates (strain)
+
+
+def run_history(ctx, inp, ops, pending, oracle_only):
+    ctx.count("stream:history")
+    aj = inp["a"]
+    obj, e = attempt(lambda: core.atoms_from_json(aj))
+    if e is not None or aj["cell"] is None:
+        if e is not None:
+            ctx.fail("constructing the structure raised %s" % type(e).__name__, inp, tags=[])
+        return
+    judge_state(ctx, inp, aj, inp["fract"][0], ops, pending, oracle_only, obj=obj, where="[save 0] ")
+    for k, st in enumerate(inp["steps"]):
+        ctx.count("history-step:" + st["kind"] + "/" + st.get("keep", ""))
+        _, e = attempt(lambda: apply_step(obj, st))
+        if e is not None:
+            ctx.fail("changing the cell of the live object raised %s: %s" % (type(e).__name__, str(e)[:120]), inp, tags=[])
+            return
+        # the state of the object as its plain attributes show it (cell, positions, ...): what the next save must write
+        state = core.canon_atoms(obj)
+        judge_state(ctx, inp, state, inp["fract"][k + 1], ops, pending, oracle_only, obj=obj,
+                    where="[save %d, after %s of the cell%s] " % (k + 1, {"row": "in-place row assignment", "scale": "in-place scaling",
+                          "elem": "in-place element assignment", "rowadd": "in-place row increment", "replace": "replacement"}[st["kind"]],
+                          ", fractional coordinates kept" if st.get("keep") == "frac" else ""))
+
+
 def check_case(ctx, inp, ops, pending, oracle_only=False):
     """oracle on the real code + queue the model ops for this input"""
     op = inp["op"]
@@ -1029,40 +1150,9 @@ def check_case(ctx, inp, ops, pending, oracle_only=False):
         ctx.count("stream:" + inp.get("stream", "default"))
         ctx.count("cell:" + inp.get("cellkind", "?"))
         ctx.count("place:" + inp.get("placement", "?"))
-        ctx.count("out:" + ("fract" if fract else "cartn"))
-        for k in ["atom", "bond", "angle", "dihedral", "improper"]:
-            if aj["xlabels"].get(k):
-                ctx.count("extra:" + k)
-        for k in KINDS:
-            if aj["terms"][k]:
-                ctx.count("terms:" + k)
-        big = len(aj["atoms"]) > LARGE_TIE_LIMIT
-        bad, info = oracle_roundtrip(aj, fract, with_ase=not big)
-        if "block" in info:
-            bad += oracle_cellpar_strings(aj, info["block"])
-        if "in_cell" in info:
-            ctx.count("rewrite:" + ("W2==W1" if info["in_cell"] else "W3==W2"))
-        for what, tag in bad:
-            ctx.fail(what, inp, observed=(info.get("w1") or "")[:1500], required="C15 round trip", tags=[tag] if tag else [])
-        if oracle_only or big:
-            return
-        # tie 1: the block the code wrote against the model's saveCif
-        a, e = attempt(lambda: core.atoms_from_json(aj))
-        if e is not None:
-            return
-        w1, e = attempt(lambda: write(a, fract))
-        if e is not None:
-            ops.append({"op": "cif_save", "a": aj, "fract": fract, "env": env_for(aj, None)})
-            pending.append(("cif_save", {"err": save_err(e)}, None))
-            return
-        block = info.get("block") or read_block(w1)
-        ops.append({"op": "cif_save", "a": aj, "fract": fract, "env": env_for(aj, block)})
-        pending.append(("cif_save", {"ok": canon_block(block)}, exact_arith(aj) or not (fract and aj["cell"] is not None)))
-        # tie 2: what the code read from that file against the model's loadCif on that block
-        b, e = attempt(lambda: read(w1))
-        impl = {"ok": core.canon_atoms(b)} if e is None else {"err": load_err(e)}
-        ops.append({"op": "cif_load", "block": block, "cell": impl["ok"]["cell"] if e is None else None})
-        pending.append(("cif_load", impl, None))
+        judge_state(ctx, inp, aj, fract, ops, pending, oracle_only)
+    elif op == "history":
+        run_history(ctx, inp, ops, pending, oracle_only)
     elif op == "handwritten":
         ctx.count("hand:" + inp["kind"])
         ctx.count("hand-numbers:" + inp.get("style", "plain"))
@@ -1117,6 +1207,8 @@ def all_cases(ctx):
     for s in ["1.234(5)", "((1)2)", "(12(3)x()(4", "0.5(12)(3)", "(7)", "()", "1(2", "1)2("]:
         cases.append({"op": "strip", "s": s})
     cases.append(tiny_negative_case())
+    for _ in range(ctx.n(30, 400)):
+        cases.append(gen_history(rng))
     return corpus_cases() + cases + known_cases(ctx) + large_cases(ctx)
 
 
